@@ -624,7 +624,7 @@ class C26(C.Check):
                 o = "(Raise ValueError)"
             checks.append("conslen_ok %s %s" % (C.clist([C.cz(x) for x in lst]), o))
             where.append(("consecutive_length", lst, 0))
-        bad = C.eval_cases(self.prop, "corr_p%d" % os.getpid(), HEADER, checks)
+        bad = C.eval_cases(self.prop, "corr_p%d" % os.getpid(), HEADER, checks, shard=120, jobs=4)
         for i in bad[:4]:
             w = where[i]
             det = {"where": list(map(str, w)), "check": checks[i][:1500]}
